@@ -85,6 +85,17 @@ def run_job(args):
     job, th, budget = args
     t0 = time.time()
     out = {"job": job, "ok": False}
+    # a batch of jobs shares one wall-clock allowance: on a tree whose explorations all diverge the
+    # check must still end (each remaining job then reports the exhausted budget, fail closed)
+    secs = budget.get("seconds", 1500)
+    if budget.get("deadline"):
+        secs = min(secs, budget["deadline"] - t0)
+    if secs < 5:
+        out.update({"ok": True, "states": 0, "transitions": 0, "results": 0, "keys": 0, "subsumed": 0,
+                    "budget": "time allowance of the whole batch exhausted before this exploration started",
+                    "obligations": {}, "violations": [], "unanalysable": [], "verdicts": {}, "instances": [], "sample_paths": []})
+        return out
+    budget = dict(budget, seconds=secs)
     try:
         from . import explore as E, roots, spec as S, prims as PR, monitors as MON
         prog = load_prog(job["config"], job["profile"], th)
@@ -224,6 +235,7 @@ def run_jobs(jobs, budget=None, procs=None, use_cache=True, th=None):
         for cfg, prof in sorted(set((jobs[i]["config"], jobs[i]["profile"]) for i in todo)):
             F.get_facts(cfg, prof, th)
         procs = procs or min(len(todo), int(os.environ.get("VERIF_PROCS", "16")))
+        budget = dict(budget, deadline=time.time() + budget.get("total_seconds", 900))
         args = [(jobs[i], th, budget) for i in todo]
         # longest first
         if procs > 1:
